@@ -1,4 +1,4 @@
-//! Fixed-capacity model of `Vec<T>` for plain-data elements (`T: Copy + Default`): contiguous
+//! Fixed-capacity model of `Vec<T>` for plain-data elements (`T: Clone + Default`): contiguous
 //! storage, so it derefs to a real slice and every slice method (`iter`, `binary_search`,
 //! `first`, `last`, indexing by range, ...) is the real `core` code.  Capacity `CCAP`.
 use core::fmt;
@@ -11,23 +11,23 @@ pub const CCAP: usize = 8;
 #[cfg(verif_ccap16)]
 pub const CCAP: usize = 16;
 
-#[derive(Clone, Copy)]
-pub struct Vec<T: Copy + Default> {
+#[derive(Clone)]
+pub struct Vec<T: Clone + Default> {
     n: usize,
     data: [T; CCAP],
 }
 
-impl<T: Copy + Default> Default for Vec<T> {
+impl<T: Clone + Default> Default for Vec<T> {
     fn default() -> Self {
         Self::new()
     }
 }
-impl<T: Copy + Default> fmt::Debug for Vec<T> {
+impl<T: Clone + Default> fmt::Debug for Vec<T> {
     fn fmt(&self, _f: &mut fmt::Formatter<'_>) -> fmt::Result {
         Ok(())
     }
 }
-impl<T: Copy + Default + PartialEq> PartialEq for Vec<T> {
+impl<T: Clone + Default + PartialEq> PartialEq for Vec<T> {
     fn eq(&self, o: &Self) -> bool {
         if self.n != o.n {
             return false;
@@ -43,11 +43,11 @@ impl<T: Copy + Default + PartialEq> PartialEq for Vec<T> {
         r
     }
 }
-impl<T: Copy + Default + Eq> Eq for Vec<T> {}
+impl<T: Clone + Default + Eq> Eq for Vec<T> {}
 
-impl<T: Copy + Default> Vec<T> {
+impl<T: Clone + Default> Vec<T> {
     pub fn new() -> Self {
-        Self { n: 0, data: [T::default(); CCAP] }
+        Self { n: 0, data: core::array::from_fn(|_| T::default()) }
     }
     pub fn with_capacity(_c: usize) -> Self {
         Self::new()
@@ -59,7 +59,7 @@ impl<T: Copy + Default> Vec<T> {
         let mut i = 0;
         while i < CCAP {
             if i < n {
-                v.data[i] = elem;
+                v.data[i] = elem.clone();
             }
             i += 1;
         }
@@ -94,7 +94,7 @@ impl<T: Copy + Default> Vec<T> {
             None
         } else {
             self.n -= 1;
-            Some(self.data[self.n])
+            Some(core::mem::take(&mut self.data[self.n]))
         }
     }
     pub fn clear(&mut self) {
@@ -113,7 +113,7 @@ impl<T: Copy + Default> Vec<T> {
     }
     pub fn extend_from_slice(&mut self, s: &[T]) {
         for t in s {
-            self.push(*t);
+            self.push(t.clone());
         }
     }
     pub fn insert(&mut self, i: usize, t: T) {
@@ -122,7 +122,7 @@ impl<T: Copy + Default> Vec<T> {
         let mut j = CCAP - 1;
         while j > 0 {
             if j > i && j <= self.n {
-                self.data[j] = self.data[j - 1];
+                self.data[j] = core::mem::take(&mut self.data[j - 1]);
             }
             j -= 1;
         }
@@ -131,11 +131,11 @@ impl<T: Copy + Default> Vec<T> {
     }
     pub fn remove(&mut self, i: usize) -> T {
         assert!(i < self.n);
-        let old = self.data[i];
+        let old = core::mem::take(&mut self.data[i]);
         let mut j = 0;
         while j + 1 < CCAP {
             if j >= i && j + 1 < self.n {
-                self.data[j] = self.data[j + 1];
+                self.data[j] = core::mem::take(&mut self.data[j + 1]);
             }
             j += 1;
         }
@@ -147,7 +147,7 @@ impl<T: Copy + Default> Vec<T> {
         let mut r = 0;
         while r < CCAP {
             if r < self.n {
-                let t = self.data[r];
+                let t = core::mem::take(&mut self.data[r]);
                 if f(&t) {
                     self.data[w] = t;
                     w += 1;
@@ -187,13 +187,13 @@ impl<T: Copy + Default> Vec<T> {
     }
 }
 
-impl<T: Copy + Default> Deref for Vec<T> {
+impl<T: Clone + Default> Deref for Vec<T> {
     type Target = [T];
     fn deref(&self) -> &[T] {
         &self.data[..self.n]
     }
 }
-impl<T: Copy + Default> DerefMut for Vec<T> {
+impl<T: Clone + Default> DerefMut for Vec<T> {
     fn deref_mut(&mut self) -> &mut [T] {
         let n = self.n;
         &mut self.data[..n]
@@ -201,17 +201,17 @@ impl<T: Copy + Default> DerefMut for Vec<T> {
 }
 
 #[derive(Clone)]
-pub struct IntoIter<T: Copy + Default> {
+pub struct IntoIter<T: Clone + Default> {
     v: Vec<T>,
     i: usize,
 }
-impl<T: Copy + Default> Iterator for IntoIter<T> {
+impl<T: Clone + Default> Iterator for IntoIter<T> {
     type Item = T;
     fn next(&mut self) -> Option<T> {
         if self.i >= self.v.n {
             return None;
         }
-        let r = self.v.data[self.i];
+        let r = core::mem::take(&mut self.v.data[self.i]);
         self.i += 1;
         Some(r)
     }
@@ -220,30 +220,30 @@ impl<T: Copy + Default> Iterator for IntoIter<T> {
         (l, Some(l))
     }
 }
-impl<T: Copy + Default> DoubleEndedIterator for IntoIter<T> {
+impl<T: Clone + Default> DoubleEndedIterator for IntoIter<T> {
     fn next_back(&mut self) -> Option<T> {
         if self.i >= self.v.n {
             return None;
         }
         self.v.n -= 1;
-        Some(self.v.data[self.v.n])
+        Some(core::mem::take(&mut self.v.data[self.v.n]))
     }
 }
-impl<T: Copy + Default> IntoIterator for Vec<T> {
+impl<T: Clone + Default> IntoIterator for Vec<T> {
     type Item = T;
     type IntoIter = IntoIter<T>;
     fn into_iter(self) -> IntoIter<T> {
         IntoIter { v: self, i: 0 }
     }
 }
-impl<'a, T: Copy + Default> IntoIterator for &'a Vec<T> {
+impl<'a, T: Clone + Default> IntoIterator for &'a Vec<T> {
     type Item = &'a T;
     type IntoIter = core::slice::Iter<'a, T>;
     fn into_iter(self) -> Self::IntoIter {
         self.deref().iter()
     }
 }
-impl<T: Copy + Default> FromIterator<T> for Vec<T> {
+impl<T: Clone + Default> FromIterator<T> for Vec<T> {
     fn from_iter<I: IntoIterator<Item = T>>(iter: I) -> Self {
         let mut v = Self::new();
         for t in iter {
@@ -252,14 +252,14 @@ impl<T: Copy + Default> FromIterator<T> for Vec<T> {
         v
     }
 }
-impl<T: Copy + Default> Extend<T> for Vec<T> {
+impl<T: Clone + Default> Extend<T> for Vec<T> {
     fn extend<I: IntoIterator<Item = T>>(&mut self, iter: I) {
         for t in iter {
             self.push(t);
         }
     }
 }
-impl<T: Copy + Default> From<&[T]> for Vec<T> {
+impl<T: Clone + Default> From<&[T]> for Vec<T> {
     fn from(s: &[T]) -> Self {
         let mut v = Self::new();
         v.extend_from_slice(s);
